@@ -666,6 +666,7 @@ func main() {
 	of := offsetsExplore(run, outcomes, samples)
 	dr := driftExplore(run, outcomes)
 	wd := wideExplore(run, outcomes)
+	ef := efaultExplore(run, outcomes)
 	t1 := time.Now()
 	rd := readdirExplore(run, outcomes, samples)
 	t2 := time.Now()
@@ -677,7 +678,7 @@ func main() {
 		depths = append(depths, l)
 	}
 	run.Finish(fw.Coverage{
-		Evaluations:     st.transitions + st.primed + st.tableRuns + nm.executions + of.executions + dr.histories + wd.words + rd.sequences + rd.mutated,
+		Evaluations:     st.transitions + st.primed + st.tableRuns + nm.executions + of.executions + dr.histories + wd.words + ef.cases + rd.sequences + rd.mutated,
 		DistinctNontriv: st.states - 1 + nm.states + of.states + wd.states + rd.sequences + rd.mutated,
 		States:          st.states, Transitions: st.transitions, TracesValidated: st.transitions,
 		Rule:    "fs: distinct canonical reference-model states (tree+contents, descriptor table with inode identity, offsets, append/write flags) other than the initial one, each reached by executing its shortest history on the real WASI implementation; readdir: distinct (directory, buf_len, cookie sequence) call sequences, each executed on a fresh directory descriptor; wide-table: distinct sets of open descriptor numbers reached from the N-descriptor tables; names / wide offsets: distinct model states of those BFS families; readdir-mutation: distinct (directory, buf_len, traversal prefix, mutation) cases",
@@ -686,12 +687,13 @@ func main() {
 			"fs_alphabet": len(alphabet()), "fs_depth": depth, "fs_per_depth": depths,
 			"fs_names": names, "fs_fds": "3(preopen)..6", "fs_data": []string{"", "xy", "wazero"},
 			"wide_table":   map[string]any{"N": wideNs, "numbers": "4,5,62..66,126..129,N+3,N+4", "depth": 2, "per_N": wd.perN},
-			"wide_offsets": of.bounds,
-			"readdir":      rd.bounds, "fs_host_filesystem": fastFS, "readdir_host_filesystem": tmpFS,
+			"wide_offsets": of.bounds, "bad_result_pointer": ef.bounds,
+			"readdir": rd.bounds, "fs_host_filesystem": fastFS, "readdir_host_filesystem": tmpFS,
 		},
 		Extra: map[string]any{
 			"descriptor_keeps_object_histories": dr.histories, "awkward_names_executions": nm.executions, "awkward_names_states": nm.states,
 			"wide_offsets_executions": of.executions, "wide_offsets_states": of.states, "wide_offsets_transitions": of.transitions,
+			"bad_result_pointer_cases": ef.cases, "bad_result_pointer_effect_on_files_happened": ef.effectHappened,
 			"wide_table_words": wd.words, "wide_table_states": wd.states,
 			"fs_transitions_also_executed_primed": st.primed, "fs_descriptor_table_variant_executions": st.tableRuns, "readdir_mutation_cases": rd.mutated,
 			"fs_transitions_outside_model": st.outside, "fs_transitions_with_mismatch": st.pruned,
@@ -723,6 +725,7 @@ func replay(file string) int {
 			Primed  bool         `json:"primed"` // older replay files
 			Variant variant      `json:"variant"`
 			Readdir *readdirCase `json:"readdir"`
+			Efault  *efaultCase  `json:"efault"`
 		} `json:"replay"`
 	}
 	if err := json.Unmarshal(b, &doc); err != nil {
@@ -749,6 +752,15 @@ func replay(file string) int {
 			return 1
 		}
 		fmt.Println("no mismatch: the implementation agrees with the model on this word")
+		return 0
+	case "efault":
+		w := newWorker(0)
+		r := w.executeEfault(*doc.Replay.Efault, true)
+		if r.mism != nil {
+			fmt.Printf("MISMATCH signature=%s: %s\n", r.mism.Sig, r.mism.What)
+			return 1
+		}
+		fmt.Println("no mismatch: the implementation agrees with the model on this case")
 		return 0
 	case "readdir":
 		return replayReaddir(doc.Replay.Readdir)
